@@ -68,8 +68,14 @@ func doC08(c *libaudit.AuditClient, op int) opObs {
 }
 
 // execC08 runs one history under one environment and applies the oracle.
-func execC08(hist []int, nRules int, env *envdfs.Env, errTexts map[string]map[int]string) (viol []Viol, log string, ops int64) {
+func execC08(hist []int, nRules int, env *envdfs.Env, errTexts map[string]map[int]string, shape ksim.Shape, guarded bool) (viol []Viol, log string, ops int64) {
 	sim := ksim.New(env)
+	sim.Shape = shape
+	sim.Guard = guarded
+	if shape.ForceEvents > 0 || shape.ErrnoAlways {
+		sim.NoDeviations = true
+	}
+	nRulesArg := nRules
 	statusLen := 44
 	if nRules >= 100 {
 		// nRules 132/136/140/148: a kernel of an older / newer layout answering AUDIT_GET with
@@ -96,7 +102,7 @@ func execC08(hist []int, nRules int, env *envdfs.Env, errTexts map[string]map[in
 	c := &libaudit.AuditClient{Netlink: sim}
 	fail := func(sig, format string, a ...interface{}) {
 		viol = append(viol, Viol{Sig: sig, What: fmt.Sprintf(format, a...) + " | history " + histNames(hist, c08Names) + " | kernel log: " + strings.Join(sim.Log, " "),
-			Replay: map[string]interface{}{"Kind": "c08", "History": hist, "NRules": nRules, "Env": append([]int{}, env.Taken...)}})
+			Replay: map[string]interface{}{"Kind": "c08", "History": hist, "NRules": nRulesArg, "Env": append([]int{}, env.Taken...), "Shape": shape, "Guard": guarded}})
 	}
 	for _, op := range hist {
 		ops++
@@ -121,15 +127,20 @@ func execC08(hist []int, nRules int, env *envdfs.Env, errTexts map[string]map[in
 				firstErrno = s.Errno
 			}
 		}
-		mustFail, lenient := false, false
+		mustFail, lenient, mayFail := false, false, false
 		for _, d := range sim.Devs {
 			if d == ksim.DevEAGAIN10 {
 				lenient = true
 			} else if ksim.MustFail(d) {
 				mustFail = true
+			} else if ksim.MayFail(d) {
+				mayFail = true
 			}
 		}
 		switch {
+		case mayFail && o.err != nil:
+			// the kernel never reorders a reply and its acknowledgement: refusing is fine, reporting
+			// success with anything but the kernel's data is not (checked below when err == nil)
 		case lenient:
 			// outside the stated tolerance: only "no panic" is required
 		case mustFail:
@@ -176,7 +187,7 @@ func execC08(hist []int, nRules int, env *envdfs.Env, errTexts map[string]map[in
 		if len(sends) == 0 {
 			fail("C08 no-request:"+name, "%s sent nothing", name)
 		}
-		if o.err != nil || mustFail || lenient || len(sim.Q) > 0 {
+		if o.err != nil || mustFail || lenient || mayFail || len(sim.Q) > 0 {
 			sim.Drain()
 		}
 	}
@@ -215,35 +226,94 @@ func runC08(j Job) *JobResult {
 	jr := &JobResult{ErrTexts: map[string]map[int]string{}}
 	outcomes := map[string]struct{}{}
 	sigSeen := map[string]bool{}
-	for _, h := range j.Histories {
-		h := h
-		jr.Executions += envdfs.Explore(j.Bound, func(env *envdfs.Env) {
-			par.Progress(func() string {
-				return fmt.Sprintf("C08 history %s nRules=%d env choices so far %v (%v)", histNames(h, c08Names), j.NRules, env.Taken, env.Labels)
-			})
-			viol, log, ops := execC08(h, j.NRules, env, jr.ErrTexts)
-			jr.Ops += ops
-			outcomes[log] = struct{}{}
-			for _, v := range viol {
-				if !sigSeen[v.Sig] {
-					sigSeen[v.Sig] = true
-					jr.Viol = append(jr.Viol, v)
+	shapes := j.Shapes
+	if len(shapes) == 0 {
+		shapes = []ksim.Shape{j.Shape}
+	}
+	for _, shape := range shapes {
+		shape := shape
+		for _, h := range j.Histories {
+			h := h
+			jr.Executions += envdfs.Explore(j.Bound, func(env *envdfs.Env) {
+				par.Progress(func() string {
+					return fmt.Sprintf("C08 history %s nRules=%d shape=%+v env choices so far %v (%v)", histNames(h, c08Names), j.NRules, shape, env.Taken, env.Labels)
+				})
+				viol, log, ops := execC08(h, j.NRules, env, jr.ErrTexts, shape, j.Guard)
+				jr.Ops += ops
+				outcomes[log] = struct{}{}
+				for _, v := range viol {
+					if !sigSeen[v.Sig] {
+						sigSeen[v.Sig] = true
+						jr.Viol = append(jr.Viol, v)
+					}
 				}
-			}
-			if len(jr.Samples) < 2 && env.Deviations() >= 2 && len(h) >= 2 {
-				jr.Samples = append(jr.Samples, fmt.Sprintf("history %s nRules=%d env=%v: %s", histNames(h, c08Names), j.NRules, env.Taken, log))
-			}
-		})
+				if len(jr.Samples) < 2 && env.Deviations() >= 2 && len(h) >= 2 {
+					jr.Samples = append(jr.Samples, fmt.Sprintf("history %s nRules=%d env=%v: %s", histNames(h, c08Names), j.NRules, env.Taken, log))
+				}
+			})
+		}
 	}
 	jr.Outcomes = len(outcomes)
 	return jr
 }
 
-func replayC08(hist []int, nRules int, envp []int) []Viol {
+func replayC08(hist []int, nRules int, envp []int, shape ksim.Shape, guarded bool) []Viol {
 	env := envdfs.New(envp)
-	v, log, _ := execC08(hist, nRules, env, map[string]map[int]string{})
+	v, log, _ := execC08(hist, nRules, env, map[string]map[int]string{}, shape, guarded)
 	fmt.Println("history:", histNames(hist, c08Names), "nRules:", nRules, "env:", envp, "\nkernel log:", log)
 	return v
+}
+
+// c08Sweeps: header details the small alphabet holds constant, one at a time, for every single
+// command (and GetRules / DeleteRules against a kernel holding 2 rules):
+//   - every single nlmsg_flags bit (and all of them) on every message the kernel sends back:
+//     the client's verdict and data may not depend on reply flags;
+//   - every record type 1100..2999 (the audit event ranges: user, daemon, kernel, SELinux,
+//     AppArmor, crypto, anomaly, integrity, kernel-generic, user2) for the unsolicited events
+//     that sit in front of every datagram, and every flags bit on them;
+//   - every errno 1..133, 512..530, 4095 as the kernel's verdict (always an error identifying it);
+//   - every datagram flush against an inaccessible page (no read past what was received).
+func c08Sweeps(tier string) []interface{} {
+	var jobs []interface{}
+	single := allHistories([]int{0, 1, 2, 3, 4, 5, 6, 11}, 1)
+	if tier == "thorough" {
+		single = allHistories([]int{0, 1, 2, 3, 4, 5, 6, 7, 8, 9, 10, 11}, 1)
+	}
+	var flagShapes []ksim.Shape
+	for b := 0; b < 16; b++ {
+		flagShapes = append(flagShapes, ksim.Shape{ReplyFlags: 1 << b})
+		flagShapes = append(flagShapes, ksim.Shape{EventFlags: 1 << b, ForceEvents: 1})
+	}
+	flagShapes = append(flagShapes, ksim.Shape{ReplyFlags: 0xFFFF}, ksim.Shape{EventFlags: 0xFFFF, ForceEvents: 2})
+	for _, c := range chunk(single, 4) {
+		// bound 1: one more deviation (an errno verdict, an event, a transient failure ...) on top of the shape
+		jobs = append(jobs, Job{Kind: "c08", Histories: c, NRules: 2, Bound: 1, Shapes: flagShapes, Guard: true})
+	}
+	var typeShapes []ksim.Shape
+	for t := 1100; t <= 2999; t++ {
+		typeShapes = append(typeShapes, ksim.Shape{EventType: uint16(t), ForceEvents: 1})
+	}
+	for _, t := range []int{1, 3, 4, 16, 999, 1000, 1001, 1013, 1099, 3000, 4095, 32768, 65535} {
+		// outside the audit ranges too: anything carrying sequence 0 is unsolicited
+		typeShapes = append(typeShapes, ksim.Shape{EventType: uint16(t), ForceEvents: 1})
+	}
+	for i := 0; i < len(typeShapes); i += 120 {
+		k := i + 120
+		if k > len(typeShapes) {
+			k = len(typeShapes)
+		}
+		jobs = append(jobs, Job{Kind: "c08", Histories: single, NRules: 2, Bound: 0, Shapes: typeShapes[i:k]})
+	}
+	var errnoShapes []ksim.Shape
+	for e := 1; e <= 4095; e++ {
+		if e <= 133 || (e >= 512 && e <= 530) || e == 4095 {
+			errnoShapes = append(errnoShapes, ksim.Shape{Errno: e, ErrnoAlways: true})
+		}
+	}
+	for _, c := range chunk(single, 4) {
+		jobs = append(jobs, Job{Kind: "c08", Histories: c, NRules: 2, Bound: 0, Shapes: errnoShapes, Guard: true})
+	}
+	return jobs
 }
 
 func checkC08(tier string) int {
@@ -271,6 +341,7 @@ func checkC08(tier string) int {
 			jobs = append(jobs, Job{Kind: "c08", Histories: c, NRules: nr, Bound: 3})
 		}
 	}
+	sweepJobs := c08Sweeps(tier)
 	if tier == "thorough" {
 		// (a) all 12 methods, histories <= 3, deviation bound 2; (b) histories <= 2, bound 3
 		jobs = nil
@@ -286,6 +357,7 @@ func checkC08(tier string) int {
 			}
 		}
 	}
+	jobs = append(jobs, sweepJobs...)
 	errTexts := map[string]map[int]string{}
 	collect(run, "C08", jobs, func(jr *JobResult) {
 		for m, t := range jr.ErrTexts {
